@@ -12,7 +12,8 @@ import z3
 
 from .sym import simp
 
-FEAS_TIMEOUT_MS = int(os.environ.get("PYVC_FEAS_MS", "3000"))
+FEAS_TIMEOUT_MS = int(os.environ.get("PYVC_FEAS_MS", "400"))
+COVER_TIMEOUT_MS = int(os.environ.get("PYVC_COVER_MS", "2500"))
 VC_TIMEOUT_MS = int(os.environ.get("PYVC_VC_MS", "6000"))
 EXT_TIMEOUT_S = float(os.environ.get("PYVC_EXT_S", "30"))
 CVC5 = "/usr/bin/cvc5"
@@ -403,5 +404,5 @@ class Path:
 
     def final_cover(self):
         """Is the completed path's condition satisfiable (non-vacuity)?"""
-        r, _ = self._check([], FEAS_TIMEOUT_MS, inst=False)
+        r, _ = self._check([], COVER_TIMEOUT_MS, inst=False)
         return r == z3.sat
